@@ -1620,6 +1620,299 @@ def unroll_literal_tables(index):
     return done
 
 
+# ---- lazily filled instance memos ------------------------------------------------------------------------------------------------
+def inline_lazy_attr_memos(index):
+    """`self._m = None` in __init__; in one method `if self._m is None: self._m = E` (E possibly chosen by nested ifs) and then reads of
+    `self._m`; every other store in the class is `self._m = None`.  When nothing that E reads from the instance is written outside
+    __init__ without also dropping the memo, `self._m` is E wherever it is read: the test disappears, the stores become a local and
+    the reads use it."""
+    import copy
+    done = {}
+
+    def is_none_test(t, attr):
+        return isinstance(t, ast.Compare) and len(t.ops) == 1 and isinstance(t.ops[0], ast.Is) and _self_attr(t.left) and t.left.attr == attr and \
+            isinstance(t.comparators[0], ast.Constant) and t.comparators[0].value is None
+
+    def all_paths_assign(body, attr):
+        for st in body:
+            if isinstance(st, ast.Assign) and len(st.targets) == 1 and _self_attr(st.targets[0]) and st.targets[0].attr == attr:
+                return True
+            if isinstance(st, ast.If) and st.orelse and all_paths_assign(st.body, attr) and all_paths_assign(st.orelse, attr):
+                return True
+        return False
+    for m in index.modules.values():
+        for cls in m.all_classes():
+            init = cls.method("__init__")
+            if init is None:
+                continue
+            methods = [f for fs in cls.methods.values() for f in fs]
+            memo_attrs = {st.targets[0].attr for st in _own_walk(init.node)
+                          if isinstance(st, ast.Assign) and len(st.targets) == 1 and _self_attr(st.targets[0]) and
+                          isinstance(st.value, ast.Constant) and st.value.value is None}
+            for attr in sorted(memo_attrs):
+                stores = [(f, st) for f in methods for st in ast.walk(f.node)
+                          if isinstance(st, (ast.Assign, ast.AugAssign, ast.AnnAssign)) and
+                          any(_self_attr(t) and t.attr == attr for t in (st.targets if isinstance(st, ast.Assign) else [st.target]))]
+                fills = [(f, st) for f, st in stores if not (isinstance(st, ast.Assign) and isinstance(st.value, ast.Constant) and st.value.value is None)]
+                homes = {f for f, _ in fills}
+                if len(homes) != 1:
+                    continue
+                g = next(iter(homes))
+                if g is init or any(isinstance(n, (ast.Yield,)) and False for n in ast.walk(g.node)):
+                    continue
+                tests = [st for st in g.node.body if isinstance(st, ast.If) and is_none_test(st.test, attr) and not st.orelse]
+                if len(tests) != 1 or not all_paths_assign(tests[0].body, attr):
+                    continue
+                T = tests[0]
+                if any(st for f, st in fills if not any(x is st for x in ast.walk(T))):
+                    continue
+                loads = [(f, n) for f in methods for n in ast.walk(f.node)
+                         if _self_attr(n) and n.attr == attr and isinstance(n.ctx, ast.Load) and not any(x is n for x in ast.walk(T.test))]
+                if not loads or any(f is not g for f, n in loads):
+                    continue
+                ti = g.node.body.index(T)
+                if any(any(x is n for x in ast.walk(st)) for st in g.node.body[:ti] for f, n in loads):
+                    continue
+                # what the filled value reads from the instance (through plain properties and locals bound before the test)
+                inputs = set()
+                local_src = {}
+                for st in g.node.body[:ti]:
+                    if isinstance(st, ast.Assign) and len(st.targets) == 1 and isinstance(st.targets[0], ast.Name):
+                        local_src[st.targets[0].id] = st.value
+                todo = [x for st in T.body for x in ast.walk(st)]
+                seen = set()
+                while todo:
+                    x = todo.pop()
+                    if isinstance(x, ast.Name) and x.id in local_src and x.id not in seen:
+                        seen.add(x.id)
+                        todo.extend(ast.walk(local_src[x.id]))
+                    if _self_attr(x) and x.attr != attr:
+                        # a property or a method of the class: everything it reads from the instance, transitively
+                        pend, seen_m = [x.attr], set()
+                        while pend:
+                            nm = pend.pop()
+                            if nm in seen_m:
+                                continue
+                            seen_m.add(nm)
+                            inputs.add(nm)
+                            for h in cls.methods.get(nm, ()):
+                                for y in ast.walk(h.node):
+                                    if _self_attr(y):
+                                        pend.append(y.attr)
+                coherent = True
+                for f in methods:
+                    if f is init or f is g:
+                        continue
+                    writes = set()
+                    for n in ast.walk(f.node):
+                        tg = []
+                        if isinstance(n, ast.Assign):
+                            tg = n.targets
+                        elif isinstance(n, (ast.AugAssign, ast.AnnAssign)):
+                            tg = [n.target]
+                        elif isinstance(n, ast.Call) and isinstance(n.func, ast.Attribute) and n.func.attr in _MUTATORS:
+                            tg = [n.func.value]
+                        for t in tg:
+                            e = t
+                            while isinstance(e, ast.Subscript):
+                                e = e.value
+                            if _self_attr(e):
+                                writes.add(e.attr)
+                    if writes & inputs and not any(h is f for h, st in stores):
+                        coherent = False
+                if not coherent:
+                    continue
+                local = f"__lazy_{attr.lstrip('_')}"
+
+                class R(ast.NodeTransformer):
+                    def visit_Attribute(self, node):
+                        self.generic_visit(node)
+                        if _self_attr(node) and node.attr == attr:
+                            return ast.copy_location(ast.Name(id=local, ctx=node.ctx), node)
+                        return node
+                new_body = [R().visit(st) for st in T.body]
+                rest = [R().visit(st) for st in g.node.body[ti + 1:]]
+                # `<local> = E` in every arm and then nothing but `yield from <local>`: each arm yields from its own E
+                uses = [n for st in rest for n in ast.walk(st) if isinstance(n, ast.Name) and n.id == local]
+                if len(rest) == 1 and len(uses) == 1 and isinstance(rest[0], ast.Expr) and isinstance(rest[0].value, ast.YieldFrom) and \
+                        rest[0].value.value is uses[0]:
+                    def push(stmts):
+                        for i_, st in enumerate(list(stmts)):
+                            if isinstance(st, ast.If):
+                                push(st.body)
+                                push(st.orelse)
+                            elif isinstance(st, ast.Assign) and len(st.targets) == 1 and isinstance(st.targets[0], ast.Name) and st.targets[0].id == local:
+                                e = st.value
+                                while isinstance(e, ast.Call) and isinstance(e.func, ast.Name) and e.func.id in ("tuple", "list") and len(e.args) == 1 and \
+                                        not e.keywords and not isinstance(e.args[0], (ast.GeneratorExp, ast.ListComp)):
+                                    e = e.args[0]               # a materialised copy yields the same elements
+                                if isinstance(e, (ast.Tuple, ast.List)) and not any(isinstance(x, ast.Starred) for x in e.elts):
+                                    outs = [ast.copy_location(ast.Expr(value=ast.Yield(value=x)), st) for x in e.elts] or [ast.copy_location(ast.Pass(), st)]
+                                else:
+                                    outs = [ast.copy_location(ast.Expr(value=ast.YieldFrom(value=e)), st)]
+                                stmts[i_:i_ + 1] = outs
+                    push(new_body)
+                    rest = []
+                g.node.body[ti:] = new_body + rest
+                ast.fix_missing_locations(g.node)
+                done[g.site] = attr
+    return done
+
+
+# ---- guards that only skip work on nothing ---------------------------------------------------------------------------------------
+def drop_zero_width_guards(index):
+    """`if len(X) > 0: <stmt>` (no else) where <stmt> does nothing when X has no bits: an assignment *to* X (`m.d.comb += X.eq(...)`:
+    a zero-width target takes no value) or an OR-accumulation of a term that is 0 when X is empty (`acc |= Mux(s, X, 0)`, `acc |= X`,
+    `acc |= X & ...`, `acc |= X.any()`).  The guard changes nothing that can be observed; the statement is hoisted out of it."""
+    done = {}
+
+    def nonempty_test(t):
+        """-> the expression X when the test is true exactly for len(X) != 0."""
+        if isinstance(t, ast.Call) and isinstance(t.func, ast.Name) and t.func.id == "len" and len(t.args) == 1:
+            return t.args[0]
+        if isinstance(t, ast.Compare) and len(t.ops) == 1:
+            a, op, b = t.left, t.ops[0], t.comparators[0]
+            def ln(e):
+                return e.args[0] if isinstance(e, ast.Call) and isinstance(e.func, ast.Name) and e.func.id == "len" and len(e.args) == 1 else None
+            def k(e):
+                return e.value if isinstance(e, ast.Constant) and isinstance(e.value, int) and not isinstance(e.value, bool) else None
+            if ln(a) is not None and k(b) is not None and (type(op).__name__, k(b)) in (("Gt", 0), ("GtE", 1), ("NotEq", 0)):
+                return ln(a)
+            if ln(b) is not None and k(a) is not None and (type(op).__name__, k(a)) in (("Lt", 0), ("LtE", 1), ("NotEq", 0)):
+                return ln(b)
+        return None
+
+    def vanishes(e, x):
+        if ast.dump(e) == x:
+            return True
+        if isinstance(e, ast.BinOp) and isinstance(e.op, ast.BitAnd):
+            return vanishes(e.left, x) or vanishes(e.right, x)
+        if isinstance(e, ast.BinOp) and isinstance(e.op, (ast.BitOr, ast.BitXor)):
+            return vanishes(e.left, x) and vanishes(e.right, x)
+        if isinstance(e, ast.Call) and isinstance(e.func, ast.Name) and e.func.id == "Mux" and len(e.args) == 3:
+            zero = isinstance(e.args[2], ast.Constant) and e.args[2].value == 0
+            return zero and vanishes(e.args[1], x)
+        if isinstance(e, ast.Call) and isinstance(e.func, ast.Attribute) and e.func.attr in ("any", "bool") and not e.args:
+            return vanishes(e.func.value, x)
+        if isinstance(e, ast.Subscript):
+            return vanishes(e.value, x)
+        return False
+
+    def rewrite(stmts):
+        n = 0
+        for i, st in enumerate(list(stmts)):
+            for fld in ("body", "orelse", "finalbody"):
+                blk = getattr(st, fld, None)
+                if isinstance(blk, list) and blk and isinstance(blk[0], ast.stmt) and not isinstance(st, (ast.FunctionDef, ast.ClassDef)):
+                    n += rewrite(blk)
+            if not (isinstance(st, ast.If) and not st.orelse and len(st.body) == 1):
+                continue
+            x = nonempty_test(st.test)
+            if x is None or not _simple_arg(x):
+                continue
+            xd = ast.dump(x)
+            b = st.body[0]
+            ok = False
+            if isinstance(b, ast.AugAssign) and isinstance(b.op, ast.BitOr) and isinstance(b.target, ast.Name) and vanishes(b.value, xd):
+                ok = True
+            if isinstance(b, ast.AugAssign) and isinstance(b.op, ast.Add) and isinstance(b.target, ast.Attribute) and \
+                    isinstance(b.target.value, ast.Attribute) and b.target.value.attr == "d" and isinstance(b.value, ast.Call) and \
+                    isinstance(b.value.func, ast.Attribute) and b.value.func.attr == "eq" and ast.dump(b.value.func.value) == xd:
+                ok = True
+            if ok:
+                stmts[stmts.index(st)] = b
+                n += 1
+        return n
+    for f in index.all_functions():
+        k = rewrite(f.node.body)
+        if k:
+            done[f.site] = k
+    return done
+
+
+# ---- keyed tables of derived values ------------------------------------------------------------------------------------------------
+def inline_keyed_tables(index):
+    """`self._T = dict()` in __init__, one writer `self._T[K] = E(K)` (K a plain name, E a pure expression of K alone, possibly through
+    a local bound once in the same function), and otherwise only reads `self._T[X]`: the table files a value that can be recomputed
+    from its key.  Every read becomes E(X); the store stays where it is (nobody reads it any more).  A missing key would be a KeyError
+    instead of a value -- the look-ups sit behind the same membership asserts as before, and a rule that wants the presence
+    guarantee has to ask for it separately."""
+    import builtins
+    import copy
+    done = {}
+    for m in index.modules.values():
+        for cls in m.all_classes():
+            init = cls.method("__init__")
+            if init is None:
+                continue
+            tables = set()
+            for st in _own_walk(init.node):
+                if isinstance(st, ast.Assign) and len(st.targets) == 1 and _self_attr(st.targets[0]) and \
+                        ((isinstance(st.value, ast.Call) and isinstance(st.value.func, ast.Name) and st.value.func.id == "dict" and
+                          not st.value.args and not st.value.keywords) or (isinstance(st.value, ast.Dict) and not st.value.keys)):
+                    tables.add(st.targets[0].attr)
+            if not tables:
+                continue
+            methods = [f for fs in cls.methods.values() for f in fs]
+            uses = {t: [] for t in tables}
+            for f in methods:
+                par = {}
+                for n in ast.walk(f.node):
+                    for ch in ast.iter_child_nodes(n):
+                        par[ch] = n
+                for n in ast.walk(f.node):
+                    if isinstance(n, ast.Attribute) and isinstance(n.value, ast.Name) and n.value.id == "self" and n.attr in tables:
+                        uses[n.attr].append((f, n, par.get(n), par))
+            for t, us in uses.items():
+                stores, reads, other = [], [], []
+                for f, n, p, par in us:
+                    if f is init and isinstance(p, ast.Assign) and n in p.targets:
+                        continue
+                    if isinstance(p, ast.Subscript) and p.value is n and isinstance(p.ctx, ast.Store) and isinstance(par.get(p), ast.Assign) and \
+                            len(par[p].targets) == 1:
+                        stores.append((f, par[p]))
+                    elif isinstance(p, ast.Subscript) and p.value is n and isinstance(p.ctx, ast.Load):
+                        reads.append((f, p, par))
+                    else:
+                        other.append(n)
+                if len(stores) != 1 or other or not reads:
+                    continue
+                f, st = stores[0]
+                key = st.targets[0].slice
+                if not isinstance(key, ast.Name):
+                    continue
+                val = st.value
+                # through one local bound once in the same function
+                if isinstance(val, ast.Name):
+                    bs = [b for b in _own_walk(f.node) if isinstance(b, ast.Assign) and len(b.targets) == 1 and
+                          isinstance(b.targets[0], ast.Name) and b.targets[0].id == val.id]
+                    if len(bs) != 1:
+                        continue
+                    val = bs[0].value
+                names = {x.id for x in ast.walk(val) if isinstance(x, ast.Name)}
+                free = {x for x in names if x != key.id and not hasattr(builtins, x) and index.resolve_function(f.module, x) is None and
+                        x not in getattr(f.module, "imports", {}) and x not in ("ceil_log2", "exact_log2", "log2")}
+                if free or any(isinstance(x, (ast.Attribute,)) and isinstance(x.value, ast.Name) and x.value.id == "self" for x in ast.walk(val)) or \
+                        any(isinstance(x, (ast.Lambda, ast.Yield, ast.Await, ast.NamedExpr)) for x in ast.walk(val)):
+                    continue
+                if not all(_simple_arg(r.slice) for _, r, _ in reads):
+                    continue
+                for g, r, par in reads:
+                    new = _Subst({key.id: r.slice}, {}).visit(copy.deepcopy(val))
+                    ast.copy_location(new, r)
+                    holder = par.get(r)
+                    for fld, v_ in ast.iter_fields(holder):
+                        if v_ is r:
+                            setattr(holder, fld, new)
+                        elif isinstance(v_, list):
+                            for i_, x in enumerate(v_):
+                                if x is r:
+                                    v_[i_] = new
+                    ast.fix_missing_locations(g.node)
+                    done[g.site] = done.get(g.site, 0) + 1
+    return done
+
+
 # ---- local memo dictionaries ------------------------------------------------------------------------------------------------------
 def inline_local_memos(index):
     """`D = {}` ... `if K not in D: D[K] = E` ... `D[K]`: a local dictionary that memoises the pure expression E per key K.  When E
